@@ -373,7 +373,24 @@ func (fv *FV) applyContract(st *State, spec *FuncSpec, fn *ssa.Function, c *ssa.
 		post.vars[g.Name] = gv
 	}
 	for _, cl := range spec.Ensures {
-		st.assume(post.Eval(cl.E))
+		// a clause that speaks about the callee's own locals (trace clauses over its loops) says
+		// nothing a caller can use: it is not assumed here
+		saved := post.err
+		var cerrs []string
+		post.err = &cerrs
+		t := post.Eval(cl.E)
+		post.err = saved
+		internal := false
+		for _, e := range cerrs {
+			if strings.HasPrefix(e, "unknown name") {
+				internal = true
+			}
+		}
+		if internal {
+			continue
+		}
+		errs = append(errs, cerrs...)
+		st.assume(t)
 	}
 	fv.formatFacts(st, spec, c, args, res)
 	if n := len(res); n > 0 && sig != nil && isErrorType(sig.Results().At(n-1).Type()) {
